@@ -359,6 +359,12 @@ pub fn load_known(property: &str) -> Vec<KnownFinding> {
     }
 }
 
+/// where evidence and replay files of this run go: VERIF_OUT (development aid: parallel runs against scratch
+/// copies of the repository must not overwrite the evidence of /verif), otherwise the verif root
+pub fn out_root() -> PathBuf {
+    std::env::var_os("VERIF_OUT").map_or_else(verif_root, PathBuf::from)
+}
+
 pub fn verif_root() -> PathBuf {
     std::env::var_os("VERIF_ROOT").map_or_else(|| PathBuf::from("/verif"), PathBuf::from)
 }
@@ -409,7 +415,7 @@ pub fn finish(ctx: &Ctx, started: Instant, mut stats: Stats, report: Report) -> 
 
     let mut replay_paths = Vec::new();
     for (i, f) in violations.iter().enumerate().take(16) {
-        let dir = verif_root().join("replays").join(ctx.id);
+        let dir = out_root().join("replays").join(ctx.id);
         let _ = std::fs::create_dir_all(&dir);
         let h = hash_of(&(f.signature.clone(), f.case.to_string()));
         let path = dir.join(format!("{}-{:016x}.json", ctx.tier.name(), h));
@@ -460,7 +466,7 @@ pub fn finish(ctx: &Ctx, started: Instant, mut stats: Stats, report: Report) -> 
         "wall_s": (wall * 1000.0).round() / 1000.0,
         "violations": violations.len(),
     });
-    let evdir = verif_root().join("evidence");
+    let evdir = out_root().join("evidence");
     let _ = std::fs::create_dir_all(&evdir);
     let evpath = evdir.join(format!("{}.json", ctx.id));
     if let Err(e) = std::fs::write(&evpath, serde_json::to_string_pretty(&evidence).unwrap()) {
